@@ -233,13 +233,13 @@ PROPS["C02"] = {
 PROPS["C10"] = {
     "groups": [
         {"crate": "std", "quick": ["c10::new_region", "c10::from_", "c10::insert1", "c10::remove1", "c10::remove2_result"],
-         "thorough": ["c10::insert2_find", "c10::remove2", "c10::remove3_result"],
+         "thorough": ["c10::remove2", "c10::remove3_result"],
          "jobs": 2, "mem_gb": 28, "timeout_s": 1500, "timeout_thorough_s": 3600, "stubbed": True,
          "unwindset": {"default": 4, "rules": _C10_RULES}},
     ],
-    "bounds": "starting map of 1..2 (remove: up to 3) regions with symbolic 64-bit bases and sizes; one insert or one remove with symbolic arguments; "
+    "bounds": "starting map of 1 region for insert, 1..2 (thorough: verdict from 3) regions for remove, with symbolic 64-bit bases and sizes; one insert or one remove with symbolic arguments; "
               "one question per query (result + identity of the handle / one find_region on the new map / one on the old map); from_regions/from_arc_regions with 0..3 regions",
-    "outside": "maps with more than 3 regions after the step; the Ok/Err verdict of insert_region into a 2-region map and find_region on the map left by removing from a 3-region map (both exceed 20 GB; the same code is decided from 1- and 2-region maps); sequences are covered by induction on the single step; 'keeps reaching the same memory' for old handles is C12",
+    "outside": "maps with more than 3 regions after the step; insert_region into a 2-region map (all three questions) and find_region on the map left by removing from a 3-region map (they exceed 20-28 GB; the harnesses insert2_* / remove3_find_new exist but are in no tier; the same code is decided from 1-region maps for insert and 1-2-region maps for remove); sequences are covered by induction on the single step; 'keeps reaching the same memory' for old handles is C12",
     "assumptions": ["alloc::slice::stable_sort modelled by an insertion sort, alloc::vec::Vec::remove by rotate-to-end + pop (harness/std/src/stdstubs.rs): std is the environment",
                     "cffi.rs sysconf model (64-byte page)"],
 }
